@@ -1,5 +1,4 @@
-import Driver.Common
-import Restic.Model.Filter
+import Driver.FilterTables
 /-!
 Driver for C28 (one case = a list of patterns and a list of path strings). Records:
   pat <hex>                               raw pattern strings, in order
@@ -12,33 +11,7 @@ Driver for C28 (one case = a list of patterns and a list of path strings). Recor
   valid <0/1>                             ValidatePatterns(all patterns) == nil
   ls <j> <List> <ListWithChild>           t|f|e:… and tt|tf|ft|ff|e:…
 -/
-open Driver Restic.Model.Filter
-
-def strOf (tok : String) : Str := ((unhexStr tok).getD "?").toList
-
-structure Tables where
-  clean : List (Str × Str)
-  glob : List ((Str × Str) × Option Bool)
-
-def Tables.cleanF (t : Tables) (s : Str) : Str :=
-  match t.clean.find? (·.1 == s) with
-  | some (_, c) => c
-  | none => ['\x00', '?']          -- missing oracle entry (reported separately)
-
-def Tables.globF (t : Tables) : Glob := fun p c =>
-  match t.glob.find? (fun e => e.1.1 == p && e.1.2 == c) with
-  | some (_, r) => r
-  | none => none
-
-def Tables.hasGlob (t : Tables) (p c : Str) : Bool := t.glob.any fun e => e.1.1 == p && e.1.2 == c
-
-def parseGlobRecs (recs : Array (Array String)) : List ((Str × Str) × Option Bool) :=
-  recs.toList.flatMap fun r =>
-    let part := strOf (r.getD 1 "-")
-    let rec go : List String → List ((Str × Str) × Option Bool)
-      | c :: v :: rest => ((part, strOf c), (if v == "t" then some true else if v == "f" then some false else none)) :: go rest
-      | _ => []
-    go (r.toList.drop 2)
+open Driver Driver.FT Restic.Model.Filter
 
 def showRes : Res Bool → String
   | .ok true => "t"
@@ -50,7 +23,6 @@ def showRes : Res Bool → String
 
 def showB (b : Bool) : String := if b then "t" else "f"
 
-def showStr (s : Str) : String := String.ofList s
 
 /-- is `a` a proper prefix of `b`? returns the extension -/
 def extOf (a b : List Str) : Option (List Str) :=
@@ -59,19 +31,11 @@ def extOf (a b : List Str) : Option (List Str) :=
 def handleC28 (c : Case) : Verdict := Id.run do
   let pats : List Str := (c.findAll "pat").toList.map fun r => strOf (r.getD 1 "-")
   let paths : List Str := (c.findAll "path").toList.map fun r => strOf (r.getD 1 "-")
-  let tabs : Tables := {
-    clean := (c.findAll "clean").toList.map fun r => (strOf (r.getD 1 "-"), strOf (r.getD 2 "-")),
-    glob := parseGlobRecs (c.findAll "glob") }
+  let tabs : Tables := tablesOf c
   let glob := tabs.globF
   let clean := tabs.cleanF
   -- oracle laws (validated on every table): G1, G2, G3
-  for e in tabs.glob do
-    if e.1.1 == ['*'] && e.2 != some (!e.1.2.contains '/') then
-      return .differ "oracle-law" s!"G1 glob(*,{showStr e.1.2})"
-    if isSimple e.1.1 && e.2 != some (e.1.1 == e.1.2) then
-      return .differ "oracle-law" s!"G2 glob({showStr e.1.1},{showStr e.1.2})"
-    if e.2.isNone && tabs.glob.any (fun e' => e'.1.1 == e.1.1 && e'.2.isSome) then
-      return .differ "oracle-law" s!"G3 part {showStr e.1.1} errs on some components only"
+  if let some v := tabs.lawViolation then return .differ "oracle-law" v
   -- prepared patterns: model vs implementation
   let mut prepared : Array (Option Pattern) := #[]
   let mut idx := 0
